@@ -5,6 +5,8 @@ import (
 	"math/rand/v2"
 	"strings"
 
+	"github.com/gkampitakis/go-snaps/snaps"
+
 	"verifharness/vkit"
 )
 
@@ -133,9 +135,20 @@ func runC04(c *vkit.Ctx, i int, h *History, om onMode) {
 	}
 	pS := []int{0, 10, 30, 60, 100}[r.IntN(5)] // share of calls that change; 0 = S empty
 	changed := map[string]string{}
+	// in every 5th case the project changed the JSON format option of its Configs after the
+	// recording: the documents are the same, their formatted values are not - the update run
+	// rewrites those entries and the read-only run passes against the new format
+	var newJSON *snaps.JSONConfig
+	if i%5 == 3 {
+		newJSON = &[]snaps.JSONConfig{{Width: 20, Indent: "\t", SortKeys: false}, {Width: 200, Indent: "    ", SortKeys: true}, {Width: 80, Indent: " ", SortKeys: false}, {Width: 0, Indent: "  ", SortKeys: true}}[r.IntN(4)]
+		c.Count("cases_with_a_changed_JSON_format_option", 1)
+	}
 	mutate := func(upd *bool) func(tp *TestPlan, idx int, op *Op) {
 		return func(tp *TestPlan, idx int, op *Op) {
 			op.Upd = upd
+			if newJSON != nil && (op.API == "json" || op.API == "sjson") {
+				op.JSONCfg = newJSON
+			}
 			mr := mutRand(c.P.Seed+int64(i), 2, tp.Name, idx)
 			if mr.IntN(100) >= pS {
 				return
